@@ -55,6 +55,10 @@ func ToRepo(s *wire.Snap, sized bool) *snapshot.Snapshot {
 	return out
 }
 
+// SizeFrac scales the pre-allocation of "sized" DBIs (1 = enough for everything,
+// smaller values exercise growth from a non-empty pre-allocated buffer).
+var SizeFrac = 1.0
+
 func ToRepoDBI(w *wire.DBI, sized bool) *snapshot.DBI {
 	var d *snapshot.DBI
 	if sized {
@@ -62,7 +66,7 @@ func ToRepoDBI(w *wire.DBI, sized bool) *snapshot.DBI {
 		for _, e := range w.Entries {
 			n += len(e.Key) + len(e.Val) + 30
 		}
-		d = snapshot.NewDBISize(n)
+		d = snapshot.NewDBISize(int(float64(n) * SizeFrac))
 	} else {
 		d = snapshot.NewDBI()
 	}
